@@ -93,14 +93,16 @@ def check_walkfiles(ctx, out, rule="C12.walkfiles"):
     for cb in ctx.facts.with_descendants(wb):
         if cb.kind != "Closure":
             continue
-        v = ctx.inl(cb, skip=ctx.domain_api, tag="domain", sugar=True)
+        # (helpers of the file-system type itself are looked through: the closure may only forward to one)
+        v = ctx.inl(cb, skip=lambda c: False, tag="all-sugar", sugar=True)
         cfg = cfg_of(v)
         rty = v.local_ty(0)
         drops = []
+        slots = util.return_slots(v)
         if rty.startswith("std::option::Option<"):
             for bi, j, s in v.assigns():
                 rv = s["rv"]
-                if bi in cfg.reachable and s["lhs"]["l"] == 0 and not s["lhs"]["p"] and rv["k"] == "agg" and rv.get("agg") == "adt" and rv.get("variant") in ("None", 0) and rv.get("path", "").endswith("option::Option"):
+                if bi in cfg.reachable and s["lhs"]["l"] in slots and not s["lhs"]["p"] and rv["k"] == "agg" and rv.get("agg") == "adt" and rv.get("variant") in ("None", 0) and rv.get("path", "").endswith("option::Option"):
                     drops.append((bi, s["span"], None))
             found = True
         elif rty == "bool" and any(callee_matches(t, r"Iterator::filter$") for _, t in wb.calls()):
